@@ -96,7 +96,7 @@ X_OPT = ["x;k=", "x;k*=", ";k*0*=", ";k*1=", "iso-8859-1'"]
 X_DICT = ["k=", "k*=", "max-age=", "max-stale"]
 X_ACC = [";q=", "text/html", "*/*", "en-US"]
 X_RANGE = ["bytes=", "bytes ", "-1/", "*/"]
-X_COOKIE = ['k="', "\\377", "\\1"]
+X_COOKIE = ['k="', "\\377", "\\400", "\\777", "\\1"]
 X_AUTH = ["Digest ", "Bearer ", "k*=", "/w==", "w6k="]
 X_HOST = [":80", ":443", ":99999", "[::1]", "xn--", ".."]
 X_CT = ["multipart/form-data;boundary=", "application/x-www-form-urlencoded", "application/json", ";charset="]
